@@ -272,7 +272,7 @@ type extraConv interface {
 }
 
 type params struct {
-	FlatRet int `json:"flat_ret"` // what the recording FlatMap callback returns: 0 Just(fb), 1 absent, 2 Just(arg)
+	FlatRet int `json:"flat_ret"` // what the recording FlatMap callback returns: 0 Just(fb), 1 absent, 2 Just(arg), 3 no Maybe at all (a nil MaybeDef)
 }
 
 // obsEqual: a and b agree on every observer the property fixes.
@@ -480,6 +480,8 @@ func exercise[T any](c *chk, m fpgo.MaybeDef[T], v, fb T, p params) {
 		f := func(x T) fpgo.MaybeDef[T] {
 			args = append(args, x)
 			switch p.FlatRet {
+			case 3:
+				ret = nil
 			case 1:
 				var zero T
 				ret = absentOf(zero, fb)
@@ -506,6 +508,13 @@ func exercise[T any](c *chk, m fpgo.MaybeDef[T], v, fb T, p params) {
 			}
 		} else if !same(any(args[0]), av) {
 			c.fail("C01/FlatMap", "callback received %s, want the wrapped value %s", show(any(args[0])), show(av))
+			return
+		}
+		if p.FlatRet == 3 {
+			// f applied to the wrapped value is "no Maybe": that, not the receiver, is what FlatMap(f) is
+			if got != nil {
+				c.fail("C01/FlatMap", "the callback returned a nil MaybeDef, FlatMap(f) returned %s", show(any(got)))
+			}
 			return
 		}
 		obsEqual(c, "FlatMap", "FlatMap(f) vs f(wrapped)", got, ret)
@@ -1102,7 +1111,7 @@ func TestRegress(t *testing.T) {
 	for _, r := range regressions {
 		r := r
 		t.Run(r.note, func(t *testing.T) {
-			for fr := 0; fr < 3; fr++ {
+			for fr := 0; fr < 4; fr++ {
 				k := r.k
 				k.Params.FlatRet = fr
 				c := runCase("regress", k)
@@ -1149,7 +1158,7 @@ func TestMatrix(t *testing.T) {
 				continue
 			}
 			for pi, p := range fixedPicks {
-				for fr := 0; fr < 3; fr++ {
+				for fr := 0; fr < 4; fr++ {
 					k := kase{Inst: in.name, Shape: shape, Picks: p, Params: params{FlatRet: fr}}
 					c := runCase("matrix", k)
 					if !c.failed() {
@@ -1165,7 +1174,7 @@ func TestMatrix(t *testing.T) {
 			}
 		}
 	}
-	s.Note("matrix: %d (instantiation x shape) cells x %d representative pick sets x 3 FlatMap callbacks, every MaybeDef observer + 9 extra conversions per case (shard %d of %d)",
+	s.Note("matrix: %d (instantiation x shape) cells x %d representative pick sets x 4 FlatMap callbacks, every MaybeDef observer + 9 extra conversions per case (shard %d of %d)",
 		cells, len(fixedPicks), vlib.Shard(), vlib.Shards())
 	s.Exhaustive("matrix")
 }
@@ -1203,7 +1212,7 @@ func genCase(t *rapid.T) kase {
 	}
 	in := instByName[name]
 	shape := rapid.SampledFrom(in.shapes).Draw(t, "shape")
-	return kase{Inst: name, Shape: shape, Picks: genPicks(t), Params: params{FlatRet: rapid.IntRange(0, 2).Draw(t, "flatRet")}}
+	return kase{Inst: name, Shape: shape, Picks: genPicks(t), Params: params{FlatRet: rapid.IntRange(0, 3).Draw(t, "flatRet")}}
 }
 
 func propObservers(t *rapid.T) {
